@@ -25,7 +25,7 @@ Theorem C04_exchange_sound : forall (H : string -> string) (cf : cfg) ops h s,
     /\ find_req (e_pre e) (q_id q) = Some q /\ q_done q = true
     /\ (exists elog, In elog h1 /\ e_op elog = Login (q_id q) (q_sub q) (q_auth q) /\ e_out elog = OLogin true)
     /\ (exists eau, In eau h1
-          /\ e_op eau = Authorize (q_client q) (q_uri q) (q_scopes q) (q_nonce q) (q_chal q)
+          /\ e_op eau = Authorize (q_client q) (q_uri q) (q_scopes q) (q_nonce q) (q_chal q) (q_extra q)
           /\ e_out eau = OAuthz (Some (q_id q)))
     /\ cred_proves cf cr (q_client q) = true
     /\ uri = q_uri q
